@@ -27,6 +27,7 @@ type Clause struct {
 	Tags []string
 	File string
 	Line int
+	Matched bool // atcall clauses: some call site matched (an anchor that disappeared must not pass silently)
 }
 
 func (c *Clause) Where() string { return fmt.Sprintf("%s:%d", shortFile(c.File), c.Line) }
